@@ -266,6 +266,16 @@ VARIANTS = [
     {"name": "P R9 regions iterated over a snapshot", "file": SESS, "expect": "silent",
      "old": "        for region in self.regions:\n            resolved_cap = region.resolve_cap(url)",
      "new": "        for region in tuple(self.regions):\n            resolved_cap = region.resolve_cap(url)"},
+    # ---- round 5 mechanisms
+    {"name": "R2 cap_urls view built through dict()", "file": REG, "expect": "C16.R2",
+     "old": "multidict.MultiDict((x, y[1]) for x, y in self.caps.items())",
+     "new": "multidict.MultiDict(dict((x, y[1]) for x, y in self.caps.items()))"},
+    {"name": "P R2 cap_urls view built from a list of pairs", "file": REG, "expect": "silent",
+     "old": "multidict.MultiDict((x, y[1]) for x, y in self.caps.items())",
+     "new": "multidict.MultiDict([(cap_name, cap_url) for cap_name, (_cap_type, cap_url) in self.caps.items()])"},
+    {"name": "P R2 add() iterates a star-unpacked tuple", "file": REG, "expect": "silent",
+     "old": "        vals = [value] + self.popall(key, [])\n        for val in vals:",
+     "new": "        for val in (value, *self.popall(key, [])):"},
     # ---- documented limits
     {"name": "X only https URLs are tracked (validity filter is value-level)", "file": REG, "expect": "miss",
      "old": "cap_url.startswith('http')", "new": "cap_url.startswith('https')"},
